@@ -266,21 +266,23 @@ def applyLineAdvance (row : Row) (inc : Int) : Row :=
     else { row with line := 0 }
   else { row with line := (row.line + inc.toNat) % 2 ^ 64 }
 
+/-- the arithmetic of `LineRow::apply_operation_advance` on `Wrapping<u64>`:
+(new `op_index`, `address_advance`) -/
+def operationPointer (h : Params) (opIndex adv : Nat) : Nat × Nat :=
+  if h.maxOps = 1 then (0, (h.minInstLen * adv) % 2 ^ 64)
+  else
+    let withAdvance := (opIndex + adv) % 2 ^ 64
+    (withAdvance % h.maxOps, (h.minInstLen * (withAdvance / h.maxOps)) % 2 ^ 64)
+
 /-- `LineRow::apply_operation_advance`. The registers are updated in the Rust order, so on
 `AddressOverflow` the already-written `op_index` stays (the iteration can go on after it). -/
 def applyOperationAdvance (h : Params) (row : Row) (adv : Nat) : Row × Option Err :=
   if row.tombstone then (row, none)
   else
-    let (row, addressAdvance) :=
-      if h.maxOps = 1 then
-        ({ row with opIndex := 0 }, (h.minInstLen * adv) % 2 ^ 64)
-      else
-        let withAdvance := (row.opIndex + adv) % 2 ^ 64
-        ({ row with opIndex := withAdvance % h.maxOps },
-         (h.minInstLen * (withAdvance / h.maxOps)) % 2 ^ 64)
-    match addSized row.address addressAdvance h.addrSize with
-    | some a => ({ row with address := a }, none)
-    | none => (row, some .rAddressOverflow)
+    let op := operationPointer h row.opIndex adv
+    match addSized row.address op.2 h.addrSize with
+    | some a => ({ row with opIndex := op.1, address := a }, none)
+    | none => ({ row with opIndex := op.1 }, some .rAddressOverflow)
 
 /-- `LineRow::adjust_opcode` (`u8` subtraction; never underflows on the paths that reach it) -/
 def adjustOpcode (h : Params) (opcode : Nat) : Nat := opcode - h.opcodeBase
@@ -344,21 +346,28 @@ def execute (h : Params) (row : Row) : Instr → Row × Exec
 
 /-! ## running a program -/
 
-/-- one value returned by `LineRows::next_row` before `Ok(None)`; `stuck` never occurs
-(`Props.C04.run_total`): it stands for fuel exhaustion / a panic inside the decoder -/
+/-- one step of the observable behaviour of `LineRows::next_row` called until `Ok(None)`:
+`row`/`err` are the values the caller receives; `hidden` is a row that `next_row` computed and
+swallowed because it was tombstoned (kept in the trace so that theorems can talk about it, dropped
+by `run`); `stuck` never occurs (`Props.C04.run_total`): fuel exhaustion / a panic in the decoder -/
 inductive Ev where
   | row (r : Row)
   | err (e : Err)
+  | hidden (r : Row)
   | stuck
   deriving DecidableEq, Repr
+
+def Ev.visible : Ev → Bool
+  | .hidden _ => false
+  | _ => true
 
 /-- `LineRows::next_row` called until it returns `Ok(None)`, all results in order.
 `row` is the register file *after* the `reset` that opens each `next_row` call.
 * parse error: `Err(e)`, the input is emptied, so the next call returns `Ok(None)`;
 * `execute` error: `Err(e)`, the next call resets and goes on with the following instruction;
-* `Ok(true)` with a tombstoned row: reset and loop, nothing is returned;
+* `Ok(true)` with a tombstoned row: reset and loop, nothing is returned (`hidden`);
 * `Ok(true)` otherwise: the row is returned, the next call resets. -/
-def runLoop (h : Params) : Nat → Row → Bytes → List Ev
+def traceLoop (h : Params) : Nat → Row → Bytes → List Ev
   | 0, _, _ => [.stuck]
   | fuel + 1, row, input =>
     if input.isEmpty then []
@@ -368,15 +377,49 @@ def runLoop (h : Params) : Nat → Row → Bytes → List Ev
       | .diverge => [.stuck]
       | .ok (ins, rest) =>
         match execute h row ins with
-        | (row, .err e) => .err e :: runLoop h fuel (reset h row) rest
-        | (row, .noEmit) => runLoop h fuel row rest
+        | (row, .err e) => .err e :: traceLoop h fuel (reset h row) rest
+        | (row, .noEmit) => traceLoop h fuel row rest
         | (row, .emit) =>
-          if row.tombstone then runLoop h fuel (reset h row) rest
-          else .row row :: runLoop h fuel (reset h row) rest
+          if row.tombstone then .hidden row :: traceLoop h fuel (reset h row) rest
+          else .row row :: traceLoop h fuel (reset h row) rest
 
-/-- `LineRows::new(program)` (or `resume`) followed by `next_row` until `Ok(None)` -/
+/-- the trace of a whole program from the initial registers -/
+def trace (h : Params) (program : Bytes) : List Ev :=
+  traceLoop h (program.length + 1) (reset h (Row.new h)) program
+
+/-- `LineRows::new(program)` (or `resume`) followed by `next_row` until `Ok(None)`: what the
+caller sees -/
 def run (h : Params) (program : Bytes) : List Ev :=
-  runLoop h (program.length + 1) (reset h (Row.new h)) program
+  (trace h program).filter Ev.visible
+
+/-- `LineInstructions::next_instruction` until `Ok(None)` (`header.instructions()`); the first
+error ends the iteration (the input is emptied) -/
+def decodeAll (h : Params) : Nat → Bytes → Out (List Instr)
+  | 0, _ => .diverge
+  | fuel + 1, input =>
+    if input.isEmpty then .ok []
+    else match parseInstr h input with
+      | .ok (ins, rest) =>
+        match decodeAll h fuel rest with
+        | .ok is => .ok (ins :: is)
+        | .err e => .err e
+        | .panic w => .panic w
+        | .diverge => .diverge
+      | .err e => .err e
+      | .panic w => .panic w
+      | .diverge => .diverge
+
+/-- the instructions decoded before the first error, and that error if any -/
+def decodePrefix (h : Params) : Nat → Bytes → List Instr × Option Err
+  | 0, _ => ([], none)
+  | fuel + 1, input =>
+    if input.isEmpty then ([], none)
+    else match parseInstr h input with
+      | .ok (ins, rest) =>
+        let (is, e) := decodePrefix h fuel rest
+        (ins :: is, e)
+      | .err e => ([], some e)
+      | _ => ([], none)
 
 /-- files appended to the header's table by `DefineFile` while `run` executes
 (`IncompleteLineProgram::add_file`) -/
